@@ -123,6 +123,9 @@ func (m *Module) Configure(w *engine.World, r *engine.Rand) any {
 	if r.Bool(0.15) {
 		c.Classes[clsBeyond] = 1
 	}
+	if r.Bool(0.3) {
+		c.Classes[clsOrder] = 1 + r.Intn(3)
+	}
 	any := false
 	for _, x := range c.Classes {
 		any = any || x > 0
@@ -138,10 +141,16 @@ func (m *Module) Configure(w *engine.World, r *engine.Rand) any {
 	c.PThrFlip = []float64{0.3, 1, 2}[r.Intn(3)]
 	c.PRollback = []float64{0.3, 0.7, 1.5}[r.Intn(3)]
 	if w.Focus == "C11" && r.Bool(0.7) {
-		c.Classes[clsHugePos] += 6
-		c.Classes[clsHugeNeg] += 3
+		for i := range c.Classes {
+			if c.Classes[i] > 1 {
+				c.Classes[i] = 1
+			}
+		}
+		c.Classes[clsHugePos] += 3
+		c.Classes[clsHugeNeg] += 2
+		c.Classes[clsOrder] += 20
 		c.PAvg = 0.7
-		c.MinProviders = 3
+		c.MinProviders = 4
 		c.PSilent, c.PErrResult = 0, 0
 	}
 	return c
